@@ -674,6 +674,12 @@ def guessXtype (t : Tables) (row : ARow) : M (CRow × String) := do
         | none => raise (.unmodelled "class not in table")
       | _ => hit "xtype.multiple"; raise .valueError
 
+/-- `if typehint: self._match_xtype(typehint) else: self._guess_xtype()` – the first thing `_create` does -/
+def resolveXtype (t : Tables) (row : ARow) (hint : Option String) : M (CRow × String) :=
+  match hint with
+  | some h => if h.isEmpty then guessXtype t row else matchXtype t row h
+  | none => guessXtype t row
+
 /-! ### `ModelElement.__init__`, `WritableAccessor._create`, `RoleTagAccessor.__set__` -/
 
 def nextFresh : M Nat := do
@@ -721,9 +727,7 @@ mutual
   /-- `WritableAccessor._create(parent, xmltag, typehint, **kw)` -/
   def accCreate (fuel : Nat) (t : Tables) (row : ARow) (parent : Nat) (xmltag : Option String) (hint : Option String)
       (kw : List (String × Slot × KwVal)) : M Nat := do
-    let (cls, xt) ← match hint with
-      | some h => if h.isEmpty then guessXtype t row else matchXtype t row h
-      | none => guessXtype t row
+    let (cls, xt) ← resolveXtype t row hint
     let want := kw.findSome? (fun (k, _, v) => if k == "uuid" then (match v with | .str s => some s | _ => none) else none)
     let want := want.bind (fun w => if w.isEmpty then none else some w)
     let kw' := (kw.filter (·.1 != "uuid")).filter (·.1 != "xtype") ++ [("xtype", Slot.other "xtype", KwVal.str xt)]
@@ -999,16 +1003,16 @@ def iterDescendants : Nat → Nat → M (List Nat)
       | none => out := out ++ [r.nid]
     pure out
 
-/-- `DirectProxyAccessor._delete(model, elements)` -/
-def deleteElems (t : Tables) (self : ARow) (elements : List Nat) : M Unit := do
+/-- the enter phase of `_delete`: every purge context of every element of the subtrees is entered; nothing is
+written; an exception unwinds the stack with the exception passed to the generators, none of which catches it.
+Returns the exits, newest first (the order `ExitStack` runs them). -/
+def deleteEnter (t : Tables) (self : ARow) (elements : List Nat) : M (List PurgeExit) := do
   -- all_elements = descendants (following fragment placeholders) + elements
   let mut descendants : List Nat := []
   for e in elements do descendants := descendants ++ (← iterDescendants 16 e)
   let all := descendants ++ elements
   let idx := refIndex (← getS)       -- the enter phase writes nothing: one scan serves every target
   let mut exits : List PurgeExit := []
-  -- enter phase: nothing is written; an exception unwinds the stack with the exception passed to the
-  -- generators, none of which catches it
   for e in all do
     if (← attrOf e "id").isSome then
       for h in (← findReferences t idx e) do
@@ -1017,6 +1021,11 @@ def deleteElems (t : Tables) (self : ARow) (elements : List Nat) : M Unit := do
         else
           let x ← purgeEnter t h.row h.referrer e
           exits := x :: exits
+  pure exits
+
+/-- `DirectProxyAccessor._delete(model, elements)`: enter all, remove, exit all -/
+def deleteElems (t : Tables) (self : ARow) (elements : List Nat) : M Unit := do
+  let exits ← deleteEnter t self elements
   for e in elements do
     match (← parentOf e) with
     | some _ => removeElem e                      -- idcache_remove(elm); parent.remove(elm)
@@ -1289,5 +1298,55 @@ def listCreate (t : Tables) (row : ARow) (owner : Nat) (elems : List Nat) (hint 
   tryExcept (accInsert row owner elems (elems.length : Int) (.elem newobj))
     (do hit "create.insert-failed"; removeElemNoIndex newobj)
   pure newobj
+
+/-! ### the API surface -/
+
+/-- one call a user makes on a model object or on a model-coupled list -/
+inductive Call
+  | create (row : ARow) (owner : Nat) (elems : Option (List Nat)) (hint : Option String) (kw : List (String × Slot × KwVal))
+  | insert (row : ARow) (owner : Nat) (elems : Option (List Nat)) (i : Int) (v : Val)
+  | delItem (row : ARow) (owner : Nat) (elems : Option (List Nat)) (i : Int)
+  | setItem (row : ARow) (owner : Nat) (elems : Option (List Nat)) (i : Int) (v : Val)
+  | set (row : ARow) (owner : Nat) (vs : List Val)          -- `owner.attr = [...]`
+  | del (row : ARow) (owner : Nat)                          -- `del owner.attr`
+  | roleSet (row : ARow) (owner : Nat) (spec : NewSpec)     -- `owner.attr = NewObject(...)`
+  | podSet (owner : Nat) (attr : String) (writable : Bool) (v : String)
+
+def valKnown (v : Val) : M Unit := match v with | .elem n => ensureKnown [n] | _ => pure ()
+
+/-- the list object in hand: the one the caller passes, or a freshly fetched one -/
+def withElems {α} (t : Tables) (row : ARow) (owner : Nat) (elems : Option (List Nat)) (k : List Nat → M α) : M α := do
+  ensureKnown [owner]
+  match elems with
+  | some e => do ensureKnown e; k e
+  | none => do let e ← accGet t row owner; k e
+
+def apiStep (t : Tables) : Call → M (Option Nat)
+  | .create row owner elems hint kw => withElems t row owner elems fun e => do
+      let n ← listCreate t row owner e hint kw; pure (some n)
+  | .insert row owner elems i v => withElems t row owner elems fun e => do
+      valKnown v; listInsert row owner e i v; pure none
+  | .delItem row owner elems i => withElems t row owner elems fun e => do
+      listDelItem t row owner e i; pure none
+  | .setItem row owner elems i v => withElems t row owner elems fun e => do
+      valKnown v; listSetItem t row owner e i v; pure none
+  | .set row owner vs => do ensureKnown [owner]; forM_ vs valKnown; accSet t row owner vs; pure none
+  | .del row owner => do ensureKnown [owner]; accDel t row owner; pure none
+  | .roleSet row owner spec => do
+      ensureKnown [owner]
+      if row.kind == .roleTagAccessor then roleTagSet 8 t row owner spec
+      else raise (.unmodelled "single-valued assignment on this accessor kind")
+      pure none
+  | .podSet owner attr w v => do ensureKnown [owner]; setStringPod owner attr w v; pure none
+
+/-- what the caller's session looks like before a call: the per-call inputs (uuid draws, identities of the objects
+the implementation is going to create) are set, the per-call outputs are empty -/
+def beginCall (s : State) (draws : List String) (fresh : List Nat) : State :=
+  { s with draws := draws, fresh := fresh, log := [], touched := [], hits := [], pending := [], pendingIds := [] }
+
+/-- a session: calls one after the other; an exception ends the call, not the session -/
+def apiRun (t : Tables) : List (Call × List String × List Nat) → State → State
+  | [], s => s
+  | (c, draws, fresh) :: cs, s => apiRun t cs (apiStep t c (beginCall s draws fresh)).st
 
 end Capella.Accessor
